@@ -2,6 +2,7 @@
   crdriver — one JSON array per input line: [property, op, args]; one JSON value per output line.
   {"fatal": msg} means the driver could not interpret the line (never a model verdict).
 -/
+import Driver.C03
 import Driver.C08
 import Driver.C16
 import Driver.C17
@@ -9,6 +10,7 @@ open Lean CR.Drv
 
 def dispatch (prop op : String) (a : Json) : P Json :=
   match prop with
+  | "C03" => C03.handle op a
   | "C08" => C08.handle op a
   | "C16" => C16.handle op a
   | "C17" => C17.handle op a
